@@ -108,7 +108,8 @@ contract(
 # ------------------------------------------------------------------------------------------------ constructor (C14)
 from .burst import FEATS  # noqa: E402
 
-SHORT = list(FEATS) + ['burst_fraction']
+# three representative threshold names in both spellings (the expansion treats every key alike; 2^7 presence patterns)
+SHORT = [FEATS[0], FEATS[3], 'burst_fraction']
 INIT_TK = {}
 for _f in SHORT:
     INIT_TK[_f] = REAL
